@@ -736,6 +736,11 @@ fn literal_key_program(rng: &mut StdRng) -> Vec<u8> {
     let mut items = Vec::new();
     let n = rng.gen_range(1..5);
     let fork = rng.gen_bool(0.4);
+    if rng.gen_bool(0.25) {
+        // a byte with no assigned opcode lies in front of the first storage instruction, jumped over
+        let b = *[0x0cu8, 0x1e, 0x21, 0x2f, 0x49, 0x5c, 0xa5, 0xef, 0xf6, 0xfb].choose(rng).unwrap();
+        items.extend([Item::PushLabel { label: 50, width: 2, high: 0, delta: 0 }, Item::Op(0x56), Item::Raw(vec![b]), Item::Label(50)]);
+    }
     if fork {
         items.extend([Item::Op(0x36), Item::PushLabel { label: 0, width: 2, high: 0, delta: 0 }, Item::Op(0x57)]);
     }
